@@ -34,13 +34,88 @@ class PassTap:
 
 ELEMENT_KINDS = ["wire", "port", "port0", "tb", "sp", "rr", "wrr", "drr", "wfq", "flowdemux"]
 
+# ---- kind 'pipe': linear pipelines of 2-3 REAL elements that have an interface adapter (coq/Elem/Adapt*.v), driven by
+# the elem_common harness and replayed in the COMPOSITE Coq model (coq/Elem/Compose.v) --------------------------------
+PIPE_ELEMS = ["wire", "port", "port0", "tb", "sp", "rr", "wrr"]
+PIPE_FLOWS = (0, 1, 2)
+PIPE_SIZES = (64, 128, 256, 512)
+PIPE_DELAYS = [Fraction(0), Fraction(1, 4), Fraction(1, 2), Fraction(1), Fraction(2)]
+PIPE_UNIFORMS = [Fraction(0), Fraction(1, 8), Fraction(1, 4), Fraction(3, 8), Fraction(1, 2), Fraction(3, 4), Fraction(1)]
+
+
+class PipeHarness(ec.Harness):
+    """elem_common harness for several elements in ONE Environment.  Every kernel step is attributed to its stage:
+    the generator functions of stage k are renamed run@k / send_packet@k, its stores are watched as store@k (the
+    schedulers' lazily created per-class stores and the token store are recognised when their events are processed)."""
+
+    def __init__(self, env):
+        super().__init__(env)
+        self.scheds = {}            # stage index -> scheduler object
+
+    def classify(self, ev):
+        res = getattr(ev, "resource", None)
+        if res is not None:
+            tn = type(ev).__name__
+            for k, s in self.scheds.items():
+                if res is s.packets_available:
+                    return [tn, "tok@%d" % k]
+                for f, st in list(s.stores.items()):
+                    if st is res:
+                        return [tn, "f:%d@%d" % (f, k)]
+        return super().classify(ev)
+
+    def _do_put(self, element, uid):
+        pkt = self.packets[uid]
+        before = dict(pkt.perhop_time)
+        super()._do_put(element, uid)
+        self.log[-1][2].extend(stamp_diff(before, pkt))
+
+
+def stamp_diff(before, pkt):
+    """what a put() wrote into packet.perhop_time (Port stamps), as extra outputs of the put"""
+    return [["stamp", k if (k is None or isinstance(k, str)) else repr(k), ec.qs(v)]
+            for k, v in pkt.perhop_time.items() if k not in before or before[k] != v]
+
+
+class HandTap:
+    """the boundary between stage k and stage k+1: records the hand-over (as an output of the action of stage k that is
+    running), calls the real put() of the next element, and records what that put did to the next element"""
+
+    def __init__(self, h, k, nxt, sample_next):
+        self.h, self.k, self.nxt, self.sample_next = h, k, nxt, sample_next
+
+    def put(self, p):
+        uid = getattr(p, "uid", None)
+        self.h._emit(["out", "s%d" % self.k, uid, ec.pkt_fields(p), id(p) == id(self.h.packets.get(uid))])
+        before = dict(p.perhop_time)
+        self.nxt.put(p)
+        self.h._emit(["hand", self.k + 1, uid, stamp_diff(before, p), self.sample_next()])
+
+
+def _first_component(s):
+    """the action part `a` of a triple string "(a, outs, obs)" produced by the element parts' log->action mappings"""
+    assert s[0] == "("
+    depth = 0
+    for i, ch in enumerate(s):
+        if ch in "([{":
+            depth += 1
+        elif ch in ")]}":
+            depth -= 1
+        elif ch == "," and depth == 1:
+            return s[1:i].strip()
+    raise ValueError(s[:80])
+
 
 class GenSinkPart:
     name = "gensink"
-    kinds = ["gen", "sink", "pipeline"]
+    kinds = ["gen", "sink", "pipeline", "pipe"]
     serves = ["C08"]
-    coq_imports = ["From ONL Require Import Base.Cmp Elem.Packet Elem.GenSink."]
-    props_files = {"C08": ["Props/C08_GenSink.v", "Props/C08_Net.v"]}
+    # the order matters: the element parts' action terms use unqualified constructor names (Port.PGet / SchedBase.PGet,
+    # OForward of Port / Bucket / SchedBase, the record field `rate` of Bucket / SchedBase); GenSink last for gen/sink terms
+    coq_imports = ["From ONL Require Import Base.Cmp Elem.Packet Elem.StoreQ Elem.SchedBase Elem.SP Elem.RR Elem.WRR Elem.Bucket "
+                   "Elem.Wire Elem.Port Elem.Iface Elem.Compose Elem.AdaptWire Elem.AdaptPort Elem.AdaptBucket Elem.AdaptSched "
+                   "Elem.GenSink."]
+    props_files = {"C08": ["Props/C08_GenSink.v", "Props/C08_Net.v", "Props/C08_Pipe.v"]}
     weight = 2
     nontrivial_rule = {"C08": "gen: scripted inter-arrival/size draws incl. zero gaps, finite and infinite finish, initial delays; "
                               "sink: random delivery sequences over 1-3 keys with all 8 flag combinations, keyed by flow id or by source; "
@@ -55,11 +130,13 @@ class GenSinkPart:
     # ------------------------------------------------------------------------------------------
     def gen_case(self, rng, tier, prop_id):
         r = rng.random()
-        if r < 0.3:
+        if r < 0.25:
             return self._gen_gen(rng)
-        if r < 0.55:
+        if r < 0.45:
             return self._gen_sink(rng)
-        return self._gen_pipeline(rng)
+        if r < 0.7:
+            return self._gen_pipeline(rng)
+        return self._gen_pipe(rng)
 
     def _gen_gen(self, rng):
         n = rng.randint(1, 8)
@@ -234,6 +311,389 @@ class GenSinkPart:
         return {"log": [list(x) for x in log], "raised": raised, "exhausted": not env._queue, "drops": drops,
                 "sink_books": {str(k): v for k, v in books.items()}, "sent": [g.packets_send for g in gens]}
 
+
+    # ---- kind 'pipe' ----------------------------------------------------------------------------------------
+    def _gen_pipe(self, rng):
+        n = rng.choice([2, 2, 3, 3])
+        w = ec.gen_workload(rng, flows=PIPE_FLOWS, n_max=8, sizes=PIPE_SIZES, burst_p=0.45)
+        npk = len(w["packets"])
+        els = [rng.choice(PIPE_ELEMS) for _ in range(n)]
+        one_wire = els.count("wire") == 1
+        eids = ["p1", "sw3", None]
+        rng.shuffle(eids)
+        stages = []
+        for el in els:
+            if el == "wire":
+                style = rng.choice(["const", "rand", "zero"])
+                if style == "const":
+                    ds = [rng.choice(PIPE_DELAYS[1:])] * npk
+                elif style == "zero":
+                    ds = [Fraction(0)] * npk
+                else:
+                    ds = [rng.choice(PIPE_DELAYS) for _ in range(npk)]
+                loss = rng.choice([None, None, Fraction(1, 4), Fraction(1, 2)]) if one_wire else None
+                stages.append({"el": "wire", "delays": [cf.qjson(d) for d in ds], "loss": None if loss is None else cf.qjson(loss),
+                               "uniforms": [cf.qjson(rng.choice(PIPE_UNIFORMS)) for _ in range(npk)]})
+            elif el in ("port", "port0"):
+                mode = rng.choice(["none", "bytes", "packets", "packets"])
+                ql, lb = None, rng.random() < 0.5
+                if mode == "bytes":
+                    ql, lb = rng.choice([128, 256, 512, 1024]), True
+                elif mode == "packets":
+                    ql, lb = rng.choice([1, 2, 2, 3, 4]), False
+                stages.append({"el": "port", "rate": 0 if el == "port0" else rng.choice([512, 1024, 4096]), "qlimit": ql,
+                               "limit_bytes": lb, "eid": eids.pop() if eids else None})
+            elif el == "tb":
+                stages.append({"el": "tb", "rate": rng.choice([512, 1024, 2048, 8192]), "bsize": rng.choice([0, 64, 128, 256, 1024]),
+                               "peak": rng.choice([None, None, 0, 4096, 16384])})
+            else:
+                if el == "rr":
+                    classes = [[f, 1] for f in PIPE_FLOWS]
+                    rng.shuffle(classes)
+                else:
+                    classes = [[f, rng.choice([1, 1, 2, 3])] for f in PIPE_FLOWS]
+                stages.append({"el": el, "rate": rng.choice([512, 1024, 4096]), "classes": classes})
+        return {"kind": "pipe", "stages": stages, "workload": w, "pre": rng.random() < 0.3, "rev": rng.random() < 0.5}
+
+    @staticmethod
+    def _pipe_parts():
+        from props.part_wire import PART as WP
+        from props.part_port import PART as PP
+        from props.part_bucket import PART as BP
+        from props.part_mq import PART as MP
+        return {"wire": WP, "port": PP, "tb": BP, "sp": MP, "rr": MP, "wrr": MP}
+
+    @staticmethod
+    def _pipe_subcase(case, st):
+        """the case of the element part that owns stage st (the shape its log->action mapping expects)"""
+        w = {"packets": case["workload"]["packets"], "drivers": []}
+        el = st["el"]
+        if el == "wire":
+            return {"kind": "wire", "workload": w, "delays": st["delays"], "loss": st["loss"], "uniforms": st["uniforms"]}
+        if el == "port":
+            return {"kind": "port", "workload": w, "rate": st["rate"], "qlimit": st["qlimit"], "limit_bytes": st["limit_bytes"],
+                    "eid": st["eid"], "uniforms": []}
+        if el == "tb":
+            return {"kind": "tb", "workload": w, "rate": st["rate"], "bsize": st["bsize"], "peak": st["peak"], "t0": "0"}
+        return {"kind": el, "sched": el, "rate": st["rate"], "classes": st["classes"], "cmap": None, "workload": w, "monitor": None}
+
+    def _run_pipe(self, case):
+        import io
+        import contextlib
+        from onl.sim import Environment
+        import onl.netdev.wire as wmod
+        from props.part_wire import Script as WScript, _loss_arg
+        from props.part_bucket import num
+        env = Environment()
+        h = PipeHarness(env)
+        w = case["workload"]
+        h.add_packets(w["packets"])
+        stages = case["stages"]
+        n = len(stages)
+        unis = None
+        for st in stages:
+            if st["el"] == "wire" and st["loss"] is not None:
+                unis = WScript(st["uniforms"])
+        if unis is None:
+            unis = WScript([])
+
+        class FakeRandom:
+            uniform = staticmethod(unis.uniform)
+        saved = wmod.random
+        wmod.random = FakeRandom
+        buf = io.StringIO()
+        try:
+            with contextlib.redirect_stdout(buf):
+                if case.get("pre"):
+                    for d in w["drivers"]:
+                        h.add_driver(d["bursts"], late=d["late"])
+                elems = [None] * n
+                samplers = [None] * n
+                order = list(reversed(range(n))) if case.get("rev") else list(range(n))
+                for k in order:
+                    elems[k], samplers[k] = self._pipe_element(env, h, k, stages[k], unis, wmod, _loss_arg, num)
+                for k in range(n):
+                    if k + 1 < n:
+                        elems[k].out = HandTap(h, k, elems[k + 1], samplers[k + 1])
+                    else:
+                        elems[k].out = h.tap("s%d" % k)
+                h.attach(elems[0])
+                h.after_action(lambda: [f() for f in samplers])
+                if not case.get("pre"):
+                    for d in w["drivers"]:
+                        h.add_driver(d["bursts"], late=d["late"])
+                log = h.run(max_steps=20000)
+        finally:
+            wmod.random = saved
+        final = []
+        for k, st in enumerate(stages):
+            e = elems[k]
+            if st["el"] == "port":
+                final.append({"received": e.packets_received, "dropped": e.packets_dropped, "store": len(e.store.items)})
+            elif st["el"] == "wire":
+                final.append({"received": e.packets_rec, "store": len(e.store.items), "uniforms": unis.n})
+            elif st["el"] == "tb":
+                final.append({"received": e.packets_received, "sent": e.packets_sent, "store": len(e.store.items)})
+            else:
+                final.append({"received": e.packets_received, "total": e.total_packets})
+        return {"log": log, "raised": h.raised, "exhausted": h.exhausted, "final": final}
+
+    @staticmethod
+    def _pipe_element(env, h, k, st, unis, wmod, loss_arg, num):
+        """construct the real element of stage k, name its processes and stores, return (element, sampler);
+        each sampler returns what the owning part's harness samples after every action (same layout)"""
+        from props.part_wire import Script as WScript
+        el = st["el"]
+        if el == "wire":
+            delays = WScript(st["delays"])
+            e = wmod.Wire(env, delay_dist=delays, loss_rate=loss_arg(st))
+            un = unis if st["loss"] is not None else WScript([])
+            smp = (lambda: [e.packets_rec, len(e.store.items), un.n, delays.n])
+        elif el == "port":
+            from onl.netdev.port import Port
+            e = Port(env, st["rate"], st["qlimit"], st["limit_bytes"], st["eid"])
+            smp = (lambda: [e.packets_received, e.packets_dropped, e.byte_size, len(e.store.items), int(e.busy), "0/1", 0,
+                            [getattr(p, "uid", -1) for p in e.store.items], e.busy_packet_size, []])
+        elif el == "tb":
+            from onl.netdev.token_bucket import TokenBucket
+            e = TokenBucket(env, rate=num(st["rate"]), bucket_size=st["bsize"], peak=None if st["peak"] is None else num(st["peak"]))
+            smp = (lambda: [e.packets_received, e.packets_sent, ec.qs(e.current_bucket), ec.qs(e.update_time), len(e.store.items)])
+        else:
+            classes = st["classes"]
+            if el == "sp":
+                from onl.scheduler.sp import SP
+                e = SP(env, st["rate"], {f: p for f, p in classes})
+            elif el == "rr":
+                from onl.scheduler.rr import RR
+                e = RR(env, st["rate"], [f for f, _ in classes])
+            else:
+                from onl.scheduler.wrr import WRR
+                e = WRR(env, st["rate"], {f: wt for f, wt in classes})
+            flows = sorted({f for f, _ in classes})
+            h.scheds[k] = e
+            orig = e.send_packet
+
+            def send_packet(pkt, orig=orig, k=k):
+                g = orig(pkt)
+                g.__name__ = "send_packet@%d" % k
+                return g
+            e.send_packet = send_packet
+
+            def smp():
+                q = [[f, e.queue_count.get(f, 0), e.queue_byte_size.get(f, 0)] for f in flows]
+                stl = [[f, len(e.stores[f].items) if f in e.stores else 0] for f in flows]
+                cur = e.current_packet
+                return [q, None if cur is None else getattr(cur, "uid", -1), e.packets_received, len(e.packets_available.items),
+                        e.total_packets, [], stl]
+        proc = getattr(e, "action", None) or getattr(e, "proc")
+        proc._generator.__name__ = "run@%d" % k
+        if el in ("wire", "port", "tb"):
+            h.watch_store("store@%d" % k, e.store)
+        return e, smp
+
+    # ---- the global log -> per-stage logs (the shape the element parts' mappings expect) + global schedule ----
+    @staticmethod
+    def _pipe_split(case, obs):
+        """-> (sublogs, sched, err).  sublogs[k] = the log of stage k as its own part's harness would have written it;
+        sched = per global action ("adv", t) | ("put", uid, outs) | ("step", k, index into sublogs[k], outs)
+        with outs = the hand-overs / deliveries of the action as (boundary, uid), in order"""
+        import re
+        stages = case["stages"]
+        n = len(stages)
+        sub = [[] for _ in range(n)]
+        sched = []
+        for e in obs["log"]:
+            kind, samples = e[0], e[-1]
+            if kind == "adv":
+                for k in range(n):
+                    sub[k].append(["adv", e[1], samples[k]])
+                sched.append(("adv", e[1]))
+                continue
+            if kind == "put":
+                owner, outs = 0, e[2]
+            elif kind == "step":
+                ks = set(re.findall(r"@(\d+)", e[1][1]))
+                if len(ks) != 1:
+                    return None, None, f"kernel step {e[1]} does not belong to exactly one stage"
+                owner, outs = int(ks.pop()), e[2]
+            else:
+                return None, None, f"unexpected log entry {e[:2]}"
+            mine = []
+            seen = []
+            pending = []          # put entries of the downstream stages caused by this action, in order
+            for o in outs:
+                if o[0] == "out":
+                    j = int(o[1][1:])
+                    seen.append((j, o[2]))
+                    if j == owner:
+                        mine.append(o)
+                    elif j != n - 1 and not pending:
+                        return None, None, f"stage {j} forwarded inside an action of stage {owner} without a hand-over"
+                elif o[0] == "hand":
+                    j = o[1]
+                    st = [x for x in o[3]] if stages[j]["el"] == "port" else []
+                    pending.append((j, ["put", o[2], st, o[4]]))
+                elif o[0] == "stamp":
+                    if stages[owner]["el"] == "port":
+                        mine.append(o)
+                else:
+                    return None, None, f"unexpected output {o[:2]}"
+            if kind == "put":
+                sub[0].append(["put", e[1], mine, samples[0]])
+                sched.append(("put", e[1], seen))
+            else:
+                label = [e[1][0], re.sub(r"@\d+", "", e[1][1])]
+                sub[owner].append(["step", label, mine, samples[owner]])
+                sched.append(("step", owner, len(sub[owner]) - 1, seen))
+            for j, pe in pending:
+                sub[j].append(pe)
+        return sub, sched, None
+
+    def _pipe_elem_term(self, case, k):
+        st = case["stages"][k]
+        sc = self._pipe_subcase(case, st)
+        parts = self._pipe_parts()
+        q0 = cf.q(0)
+        if st["el"] == "wire":
+            return f"(wire_elem {cf.opt(st['loss'], cf.q)} {q0})"
+        if st["el"] == "port":
+            return f"(port_elem {parts['port']._cfg_term(sc)} {q0})"
+        if st["el"] == "tb":
+            return f"(tb_elem {parts['tb']._cfg_term(sc)} {q0})"
+        return f"(mq_elem {parts[st['el']]._cfg_term(sc)})"
+
+    def _pipe_terms(self, case, obs):
+        """-> (per-stage agree terms of the element parts, composite observation list, err)"""
+        sub, sched, err = self._pipe_split(case, obs)
+        if sub is None:
+            return None, None, err
+        parts = self._pipe_parts()
+        stages = case["stages"]
+        n = len(stages)
+        specs = case["workload"]["packets"]
+        stage_terms, triples = [], []
+        for k, st in enumerate(stages):
+            sc = self._pipe_subcase(case, st)
+            part = parts[st["el"]]
+            o = {"log": sub[k], "raised": None, "exhausted": obs["exhausted"]}
+            stage_terms.append("(" + part.agree_term(sc, o) + ")")
+            acts, e2 = (part._obs_term(sc, o) if st["el"] == "tb" else part._actions(sc, o))
+            if acts is None:
+                return None, None, f"stage {k}: {e2}"
+            if len(acts) != len(sub[k]):
+                return None, None, f"stage {k}: mapping dropped log entries"
+            triples.append(acts)
+
+        def inj(k, a):
+            if k == n - 1:
+                return "inr (" * k + a + ")" * k
+            return "inr (" * k + "inl (" + a + ")" + ")" * k
+
+        def outs_term(seen):
+            return cf.lst([(f"EForward {ec.pkt_coq(specs[str(u)], u)}" if j == n - 1 else f"EHand {cf.nat(j)} {ec.pkt_coq(specs[str(u)], u)}")
+                           for (j, u) in seen])
+        comp = []
+        for x in sched:
+            if x[0] == "adv":
+                comp.append(f"(IAdv {cf.q(x[1])}, [])")
+            elif x[0] == "put":
+                comp.append(f"(IPut {ec.pkt_coq(specs[str(x[1])], x[1])}, {outs_term(x[2])})")
+            else:
+                _, k, idx, seen = x
+                comp.append(f"(IStep ({inj(k, _first_component(triples[k][idx]))}), {outs_term(seen)})")
+        return stage_terms, comp, None
+
+    def _pipe_agree(self, case, obs):
+        if obs["raised"]:
+            return "false"
+        stage_terms, comp, err = self._pipe_terms(case, obs)
+        if stage_terms is None:
+            return f"false (* {err} *)"
+        n = len(case["stages"])
+        E = f"(pipeline {self._pipe_elem_term(case, 0)} {cf.lst([self._pipe_elem_term(case, k) for k in range(1, n)])})"
+        nl = ";" + chr(10) + "    "
+        return " && ".join(stage_terms) + f" && pipe_agree {E} {cf.lst(comp, sep=nl)}"
+
+    def _pipe_model_term(self, case):
+        try:
+            obs = self._run_pipe(case)
+        except Exception:
+            return None
+        if obs.get("raised"):
+            return None
+        stage_terms, comp, err = self._pipe_terms(case, obs)
+        if stage_terms is None:
+            return None
+        n = len(case["stages"])
+        E = f"(pipeline {self._pipe_elem_term(case, 0)} {cf.lst([self._pipe_elem_term(case, k) for k in range(1, n)])})"
+        nl = ";" + chr(10) + "    "
+        return f"({cf.lst(stage_terms)}, pipe_first_diff {E} {cf.lst(comp, sep=nl)})"
+
+    # ---- the property as an oracle over what crossed the stage boundaries -----------------------------------
+    def _monitor_pipe(self, case, obs):
+        msgs = []
+        stages = case["stages"]
+        n = len(stages)
+        specs = case["workload"]["packets"]
+        crossed = {k: [] for k in range(n)}        # what left stage k: (uid, fields, same object), in order
+        inj = []
+        for e in obs["log"]:
+            if e[0] == "put":
+                inj.append(e[1])
+            if e[0] in ("put", "step"):
+                for o in e[2]:
+                    if o[0] == "out":
+                        crossed[int(o[1][1:])].append((o[2], o[3], o[4]))
+            elif e[0] == "stray-out":
+                msgs.append("pipe-stray: a packet was handed on outside every action")
+        if len(set(inj)) != len(inj):
+            msgs.append("pipe-harness: a packet was injected twice")
+        ins = inj
+        for k, st in enumerate(stages):
+            name = f"stage {k} ({st['el']})"
+            outs = [u for (u, _, _) in crossed[k]]
+            fin = obs["final"][k]
+            for (u, fields, same) in crossed[k]:
+                sp = specs.get(str(u))
+                if sp is None or u not in ins:
+                    msgs.append(f"pipe-invented: {name} forwarded packet {u} that was never put into it")
+                    continue
+                if (not same or fields[:2] != [sp["id"], sp["flow"]] or fields[2] != str(sp.get("src", "s")) or fields[3] != sp["size"]
+                        or Fraction(fields[4]) != Fraction(sp["time"]) or fields[5] != sp.get("payload")):
+                    msgs.append(f"pipe-altered: {name} forwarded packet {u} as {fields}, same-object={same}")
+            for u in set(outs):
+                if outs.count(u) > 1:
+                    msgs.append(f"pipe-duplicated: {name} forwarded packet {u} {outs.count(u)} times")
+            # the documented discards
+            dropped = 0
+            if st["el"] == "port":
+                dropped = fin["dropped"]
+            elif st["el"] == "wire" and st["loss"] is not None:
+                loss = Fraction(st["loss"])
+                taken = fin["uniforms"]                      # one uniform draw per dequeued packet, in FIFO order
+                lost = [u for u, x in zip(ins[:taken], st["uniforms"]) if Fraction(x) < loss]
+                dropped = len(lost)
+                for u in lost:
+                    if u in outs:
+                        msgs.append(f"pipe-lost-delivered: {name} delivered packet {u} although its draw is below the loss rate")
+            if fin.get("received") is not None and fin["received"] != len(ins):
+                msgs.append(f"pipe-counter: {name} counts {fin['received']} packets received, {len(ins)} were put into it")
+            held = len(ins) - len(outs) - dropped
+            if held < 0:
+                msgs.append(f"pipe-conservation: {name}: {len(ins)} in, {len(outs)} forwarded, {dropped} discarded by its rule")
+            elif obs["exhausted"] and held != 0:
+                msgs.append(f"pipe-not-drained: {name}: the simulation ran out of events, {len(ins)} in, {len(outs)} forwarded, "
+                            f"{dropped} discarded by its documented rule: {held} packets unaccounted for")
+            for f in PIPE_FLOWS:
+                a = [u for u in ins if specs[str(u)]["flow"] == f and u in outs]
+                b = [u for u in outs if str(u) in specs and specs[str(u)]["flow"] == f and u in ins]
+                if a != b and len(set(b)) == len(b):
+                    msgs.append(f"pipe-flow-order: {name} forwarded flow {f} as {b}, it entered as {a}")
+            ins = outs
+        if not obs["exhausted"]:
+            msgs.append("pipe-not-quiescent: event queue not empty after 20000 steps")
+        return msgs
+
     # ------------------------------------------------------------------------------------------
     def agree_term(self, case, obs):
         k = case["kind"]
@@ -277,9 +737,13 @@ class GenSinkPart:
                             f"k_first := {cf.q(b[5])}; k_last := {cf.q(b[6])}; k_packets := {cf.z(b[7])}; k_bytes := {cf.z(b[8])} |}})"
                             for b in obs["books"]])
             return f"books_eqb (sink_run {cfg} {ds}) {books}"
-        return None    # pipelines: monitor only
+        if k == "pipe":
+            return self._pipe_agree(case, obs)
+        return None    # kind 'pipeline' (fan-out, DRR/WFQ, generators and sinks): monitor only
 
     def model_term(self, case):
+        if case["kind"] == "pipe":
+            return self._pipe_model_term(case)
         return None
 
     # ------------------------------------------------------------------------------------------
@@ -336,6 +800,8 @@ class GenSinkPart:
                 if b[7] != len(d) or b[8] != sum(x[0] for x in d) or [Fraction(x) for x in b[1]] != exp_w \
                         or [Fraction(x) for x in b[4]] != exp_a:
                     msgs.append(f"sink-books: key {key}: counts/bytes/waits/arrivals {b[7]},{b[8]},{b[1]},{b[4]} do not match the {len(d)} delivered packets")
+        elif k == "pipe":
+            msgs += self._monitor_pipe(case, obs)
         else:
             msgs += self._monitor_pipeline(case, obs)
         return msgs[:3]
@@ -405,6 +871,9 @@ class GenSinkPart:
             return sum(len(e[2]) for e in obs["log"] if e[0] == "step") >= 3
         if k == "sink":
             return len(case["ds"]) >= 3 and len({d[0] for d in case["ds"]}) >= 2
+        if k == "pipe":
+            return len(case["workload"]["packets"]) >= 3 and any(o[0] == "out" and o[1] == "s%d" % (len(case["stages"]) - 1)
+                                                                 for e in obs["log"] if e[0] in ("put", "step") for o in e[2])
         return len([x for x in obs["log"] if x[0] == "inject"]) >= 4
 
     def shrink(self, case):
@@ -417,6 +886,18 @@ class GenSinkPart:
                 yield {**case, "sizes": case["sizes"][:-1], "arr": case["arr"][:-1]}
             if case["finish"] is not None:
                 yield {**case, "finish": None}
+        elif k == "pipe":
+            if len(case["stages"]) > 1:
+                for i in range(len(case["stages"])):
+                    yield {**case, "stages": case["stages"][:i] + case["stages"][i + 1:]}
+            for w in ec.shrink_workload(case["workload"]):
+                if w["packets"]:
+                    yield {**case, "workload": w}
+            for i, st in enumerate(case["stages"]):
+                if st["el"] == "wire" and st["loss"] is not None:
+                    yield {**case, "stages": case["stages"][:i] + [{**st, "loss": None}] + case["stages"][i + 1:]}
+            if case.get("pre"):
+                yield {**case, "pre": False}
         else:
             if len(case["chain"]) > 1:
                 for i in range(len(case["chain"])):
@@ -436,6 +917,10 @@ class GenSinkPart:
         if k == "pipeline":
             keys += ["pipeline:has-" + c for c in sorted(set(case["chain"]))]
             keys.append("pipeline:len=%d" % len(case["chain"]))
+        if k == "pipe":
+            keys.append("pipe:" + ">".join(st["el"] + ("0" if st["el"] == "port" and st["rate"] == 0 else "") for st in case["stages"]))
+            keys.append("pipe:len=%d" % len(case["stages"]))
+            keys.append("pipe:packets=%d" % min(len(case["workload"]["packets"]), 8))
         return keys
 
     def signature(self, case, obs, msg):
